@@ -2,6 +2,8 @@ package main
 
 import (
 	"fmt"
+	"go/token"
+	"go/types"
 	"strings"
 
 	"golang.org/x/tools/go/ssa"
@@ -16,6 +18,45 @@ func checkC25(r *Run) {
 	r.Explain = "(R1+) useragent.Parse accepts only non-empty, validated strings that the pattern matches entirely and whose version is valid semver, unconditionally; (R3+) no message process method is called except through the gated dispatch of onMessageEvent, and every message type's Handle only queues itself (recordMessageEvent(self, mc)) without any daemon operation before the gate; C25: (R1) IntroductionMessage.Verify succeeds only with mirror != ours, protocol version >= minimum, extra data carrying this network's blockchain pubkey (copied from Extra[:33] and compared), valid verification parameters, a parseable user agent — and rejects for nothing else; (R2) a connection is marked introduced only from IntroductionMessage.process after Verify succeeded; (R3) before introduction only Introduction, Disconnect and GivePeers messages are dispatched to their handler, and asyncMessage.process is called from nowhere else; (R4) every slice/index of the untrusted Extra bytes is in bounds on every path."
 	r.NotDec = "behaviour of the user-agent parser itself; network-level sequencing"
 	ruleNoCrossedConfig(r, "C25-R0")
+	// below the daemon's gate: a frame gnet cannot turn into a registered message (unknown id, malformed body,
+	// trailing bytes) ends the connection: every error of receiveMessage is handed to the connection's error
+	// channel at once, none is skipped
+	nRecv := 0
+	for _, f := range r.P.ModFns {
+		if !strings.HasPrefix(FnName(f), "daemon/gnet.ConnectionPool.handleConnection") {
+			continue
+		}
+		for _, cs := range r.CallSites(f, "daemon/gnet.ConnectionPool.receiveMessage") {
+			nRecv++
+			okSend := false
+			call, _ := cs.(*ssa.Call)
+			for _, b := range f.Blocks {
+				iff, isIf := b.Instrs[len(b.Instrs)-1].(*ssa.If)
+				if !isIf || call == nil {
+					continue
+				}
+				bo, isBo := iff.Cond.(*ssa.BinOp)
+				if !isBo || bo.Op != token.NEQ || bo.X != ssa.Value(call) {
+					continue
+				}
+				for _, in := range b.Succs[0].Instrs {
+					switch x := in.(type) {
+					case *ssa.Send:
+						okSend = true
+					case *ssa.Select:
+						for _, st := range x.States {
+							if st.Dir == types.SendOnly {
+								okSend = true
+							}
+						}
+					}
+				}
+			}
+			r.Check("C25-R4", FnName(f)+": an error of receiveMessage goes straight to the connection's error channel (the peer is disconnected)", r.P.Pos(cs.Pos()), okSend,
+				"some receiveMessage errors are skipped: a peer can keep an un-introduced connection open with frames that never reach the daemon's gate")
+		}
+	}
+	r.Check("C25-R4", "gnet receive loop found", "", nRecv == 1, fmt.Sprint(nRecv))
 	// "valid user agent" (R1): what useragent.Parse accepts — non-empty, charset/length validated, the whole string
 	// matches the user-agent pattern, and the version part is valid semver, unconditionally
 	const M = "regexp.Regexp.FindAllStringSubmatch(util/useragent.re, $0, -1)"
